@@ -674,6 +674,50 @@ def run(tier: str, budget: Budget, rnd, arg) -> StreamResult:
         res.notes.append("generators that raised (out of C15's scope, see C10): " + ", ".join(f"{k}:{v}" for k, v in sorted(raised.items())))
     res.count("float:cases", done_float)
 
+    # ---------------------------------------------------------------- large player counts (oracle on the real code only)
+    # n = 13 (thorough: 13, 14): coalition ids beyond 2^12 — table games with non-zero singleton values and cancelling
+    # mixed-sign singletons; integer values, judged with the float tolerance (the surplus is not a power of two)
+    for n_big in ((13,) if tier == "quick" else (13, 14)):
+        for variant in ("positive", "cancelling"):
+            if budget.left() < 12:
+                res.notes.append("large-n normalisation cases skipped (budget)")
+                break
+            w = [rnd.randint(1, 9) for _ in range(n_big)]
+            if variant == "cancelling":      # singleton values that are not all zero but sum to exactly 0
+                w = [rnd.randint(1, 9) for _ in range(n_big - 1)]
+                w = [x if i % 2 else -x for i, x in enumerate(w)]
+                w.append(-sum(w))
+            k_ = rnd.choice([2, 3, 4])
+            vals = [float(sum(w[i] for i in range(n_big) if c >> i & 1) + k_ * (G.popcount(c) * (G.popcount(c) - 1) // 2))
+                    for c in range(2 ** n_big)]
+            bad_big = oracle(n_big, vals, None, exact=False)
+            # closed form on a sample of coalitions
+            if not bad_big:
+                NZ, Coalition_, ICG_, _, _ = _mods()
+                gb = table_game(n_big, vals)
+                with warnings.catch_warnings():
+                    warnings.simplefilter("ignore")
+                    NZ.normalize_game(gb)
+                got = gb.get_values()
+                surplus_b = vals[-1] - sum(vals[1 << i] for i in range(n_big))
+                for c in [rnd.randrange(2 ** n_big) for _ in range(200)] + [2 ** n_big - 1, 2 ** 12, 2 ** 12 + 1]:
+                    want_c = (vals[c] - sum(vals[1 << i] for i in range(n_big) if c >> i & 1)) / surplus_b
+                    if abs(float(got[c]) - want_c) > 1e-9:
+                        bad_big = [("closed-form", {"coalition": c, "got": float(got[c]), "expected": want_c})]
+                        break
+            report(res, n_big, vals, None, bad_big, f"large-n:{variant}")
+            res.evaluations += 1
+            res.count(f"large-n:{n_big}:{variant}")
+    # small cancelling-singleton games (mixed-sign singleton values with sum exactly 0, not all zero)
+    for _ in range(6 if tier == "quick" else 40):
+        n_s = rnd.choice([3, 4, 5])
+        w = [rnd.randint(1, 5) * (1 if i % 2 else -1) for i in range(n_s - 1)]
+        w.append(-sum(w))
+        k_ = rnd.choice([1, 2, 4])
+        vals = [float(sum(w[i] for i in range(n_s) if c >> i & 1) + k_ * (G.popcount(c) * (G.popcount(c) - 1) // 2)) for c in range(2 ** n_s)]
+        report(res, n_s, vals, None, oracle(n_s, vals, None, exact=False), "cancelling-singletons")
+        res.evaluations += 1
+        res.count("cancelling-singletons")
     # ---------------------------------------------------------------- model side
     for b in script.diff():
         res.disagree("normalisation answer", {k: b[k] for k in ("line", "impl", "model", "ctx")})
